@@ -1064,6 +1064,72 @@ example : numListSchema .int ⟨some 0, none, false, true⟩ [.float (5/2), .int
 
 end Numeric
 
+section Options
+/-! ### option lists filled at run time -/
+variable {V : Type} [DecidableEq V]
+
+private theorem optSchema_nonempty (options : List V) (fallback : V → Option V) (raw : V) (hne : options ≠ []) :
+    optSchema true options fallback raw = if raw ∈ options then some raw else none := by
+  have : options.isEmpty = false := by cases options <;> simp_all
+  unfold optSchema
+  simp [this]
+
+/-- **an options-enforcing setting accepts exactly its CURRENT option list**, whatever mixture of definition-time options
+and options added later (by plugins, once or repeatedly, to an empty or a non-empty list) produced it -/
+theorem optSchema_enforced_iff (options : List V) (fallback : V → Option V) (raw : V) (hne : options ≠ []) :
+    (optSchema true options fallback raw).isSome = true ↔ raw ∈ options := by
+  rw [optSchema_nonempty options fallback raw hne]
+  by_cases h : raw ∈ options <;> simp [h]
+
+private theorem addOptions_ne (options new : List V) (hnew : new ≠ []) : addOptions options new ≠ [] := by
+  unfold addOptions; cases options <;> cases new <;> simp_all
+
+/-- a value outside the extended list is refused after options were added — also when the list STARTED EMPTY
+(`neutronicsKernel`): near-misses of the plugin's options do not get in -/
+theorem outside_options_rejected_after_add (options new : List V) (fallback : V → Option V) (raw : V)
+    (hnew : new ≠ []) (hout : raw ∉ options ∧ raw ∉ new) :
+    optSchema true (addOptions options new) fallback raw = none := by
+  rw [optSchema_nonempty _ fallback raw (addOptions_ne options new hnew)]
+  have : raw ∉ addOptions options new := by unfold addOptions; simp [hout.1, hout.2]
+  simp [this]
+
+/-- every added option is accepted (stored as given), and everything accepted before still is -/
+theorem added_option_accepted (options new : List V) (fallback : V → Option V) (raw : V)
+    (h : raw ∈ new ∨ (options ≠ [] ∧ (optSchema true options fallback raw).isSome = true)) (hnew : new ≠ []) :
+    optSchema true (addOptions options new) fallback raw = some raw := by
+  have hmem : raw ∈ addOptions options new := by
+    unfold addOptions
+    rcases h with h | ⟨hne, h⟩
+    · exact List.mem_append_right _ h
+    · exact List.mem_append_left _ ((optSchema_enforced_iff options fallback raw hne).mp h)
+  rw [optSchema_nonempty _ fallback raw (addOptions_ne options new hnew)]
+  simp [hmem]
+
+/-- an accepted option is a fixpoint of the schema (it reads back unchanged): the `schema (dump v) = some v` hypothesis for
+options-enforcing settings -/
+theorem optSchema_fixpoint (options : List V) (fallback : V → Option V) (raw v : V) (hne : options ≠ [])
+    (h : optSchema true options fallback raw = some v) : v = raw ∧ optSchema true options fallback v = some v := by
+  rw [optSchema_nonempty options fallback raw hne] at h
+  by_cases hc : raw ∈ options
+  · rw [if_pos hc] at h
+    have hv : raw = v := by simpa using h
+    subst hv
+    exact ⟨rfl, by rw [optSchema_nonempty options fallback raw hne, if_pos hc]⟩
+  · rw [if_neg hc] at h; cases h
+
+/-- why the schema has to be re-derived: a schema built while the list was empty stays the type coercion and lets every
+string through after the plugin's options arrive -/
+theorem stale_schema_admits_outsiders (new : List V) (fallback : V → Option V) (raw : V) (hacc : fallback raw = some raw) :
+    staleOptSchema true [] (addOptions [] new) fallback raw = some raw := by
+  simp [staleOptSchema, hacc]
+
+example : optSchema true (addOptions ([] : List String) ["MCNP", "MCNP_Slab"]) some "MCNP_slab" = none ∧
+    optSchema true (addOptions ([] : List String) ["MCNP", "MCNP_Slab"]) some "MCNP" = some "MCNP" ∧
+    staleOptSchema true ([] : List String) (addOptions [] ["MCNP", "MCNP_Slab"]) some "MCNP_slab" = some "MCNP_slab" := by
+  decide +kernel
+
+end Options
+
 section Examples
 /-! Non-vacuity: the hypotheses of the theorems above are satisfiable (concrete instances). -/
 private def exSchema : String → Nat → Option Nat := fun n v => if n = "b" ∧ v > 100 then none else some v
